@@ -353,7 +353,7 @@ def check(run: core.Run, replay=None):
     core.assert_repo_tree()
     quick = run.tier == "quick"
     validate.run_design(run, "MC_LazyIndex", "LazyIndex_quick.cfg", workers=8,
-                        constants={"keys": 16, "lazy_dirs": ["data (nested 3 deep)", "other", "void (lists nothing)", "top/in and top/e (below an explicit directory)"], "filters": list(FILTERS), "MaxSteps": 4})
+                        constants={"keys": 20, "lazy_dirs": ["data (nested 3 deep)", "other", "void (lists nothing)", "top/in and top/e (below an explicit directory)", "hollow (its only file three levels down, nothing in between)"], "filters": list(FILTERS), "MaxSteps": 4})
     if replay:
         cases = [replay["witness"]["case"]]
     else:
@@ -382,7 +382,7 @@ def check(run: core.Run, replay=None):
                 run.divergence({"at": clause, **wit})
     run.extra.update({"rule": "every operation (lookup, info, iteration shallow/deep with every prefix, listing, 5 prefix-closed view "
                               "filters, adaptor ls/info/cat/find, hash-level diff) as the FIRST access to a fresh lazy index and inside "
-                              "random operation sequences; a directory object nested three levels deep, a second lazy directory, an empty one, and two below an explicit "
+                              "random operation sequences; a directory object nested three levels deep, one whose only file sits three levels down below directories holding nothing else, a second lazy directory, an empty one, and two below an explicit "
                               "directory; "
                               "in-memory and SQLite-backed; every call repeated", "validation": stats})
     run.assumptions += ["metadata is compared with the index (a directory object carries no sizes): type, hash and exec flag",
